@@ -279,8 +279,24 @@ def recursion_guard_rule(ctx, rule):
     defs = [keyexpr]
     if isinstance(keyexpr, ast.Name):
         defs = [st.value for st in ast.walk(w) if isinstance(st, ast.Assign) and any(isinstance(t, ast.Name) and t.id == keyexpr.id for t in st.targets)]
-    per_call_thread = bool(defs) and all(any(isinstance(c, ast.Call) and norm(c.func).rsplit(".", 1)[-1] in ("get_ident", "current_thread", "get_native_id") for c in ast.walk(d)) for d in defs)
-    per_call_obj = bool(defs) and all(any(isinstance(c, ast.Call) and norm(c.func) == "id" for c in ast.walk(d)) for d in defs)
+    local_defs = {}
+    for st in ast.walk(w):
+        if isinstance(st, ast.Assign):
+            for t in st.targets:
+                if isinstance(t, ast.Name):
+                    local_defs.setdefault(t.id, []).append(st.value)
+
+    def calls_per_call(e, names, depth=0):
+        """Does the value of e, as computed inside the wrapper, contain a call of one of `names`?  Local names are followed."""
+        for c in ast.walk(e):
+            if isinstance(c, ast.Call) and norm(c.func).rsplit(".", 1)[-1] in names:
+                return True
+            if isinstance(c, ast.Name) and isinstance(c.ctx, ast.Load) and c.id in local_defs and depth < 3:
+                if all(calls_per_call(d, names, depth + 1) for d in local_defs[c.id]):
+                    return True
+        return False
+    per_call_thread = bool(defs) and all(calls_per_call(d, ("get_ident", "current_thread", "get_native_id")) for d in defs)
+    per_call_obj = bool(defs) and all(calls_per_call(d, ("id",)) for d in defs)
     if per_call_thread and per_call_obj:
         ctx.ok(rule, f, adds[0], "the guard's key is (id(object), thread identity), both obtained inside the per-call wrapper")
     else:
